@@ -19,9 +19,18 @@ pub struct NsReader<R> {
     trim: bool,
     /// namespace of the element event returned last (what its `ResolveResult` borrows)
     ns_buf: Inline<NS_CAP>,
+    /// the cell behind the event returned last (model-only, see `model_last_cell`)
+    last: Cell,
 }
 
 impl<R> NsReader<R> {
+    /// Model-only: the tape cell behind the event returned last.  Summary stubs use it to state
+    /// their precondition ("called on an `<rpc-error>` start tag") in terms of the reader's own
+    /// state, which is a plain local of the harness and stays a constant for symex - unlike the
+    /// tag they are handed, which lives inside an enum payload (see DESIGN.md, cost rules).
+    pub fn model_last_cell(&self) -> Cell {
+        self.last
+    }
     pub fn get_ref(&self) -> &R {
         &self.input
     }
@@ -77,14 +86,15 @@ impl<'i> NsReader<&'i [u8]> {
     #[allow(clippy::should_implement_trait)]
     pub fn from_str(s: &'i str) -> Self {
         let b = s.as_bytes();
-        let slot = if !b.is_empty() && (b[0] as usize) < tape::SLOTS { Some(b[0]) } else { None };
-        Self { input: b, slot, cur: Cursor::default(), trim: false, ns_buf: Inline::EMPTY }
+        let slot = tape::slot_of_input(b);
+        Self { input: b, slot, cur: Cursor::default(), trim: false, ns_buf: Inline::EMPTY, last: Cell::NONE }
     }
 
     fn next_cell(&mut self) -> Option<Cell> {
         let slot = self.slot?;
         let (c, next) = tape::fetch(slot, self.cur)?;
         self.cur = next;
+        self.last = c;
         Some(c)
     }
 
